@@ -74,6 +74,12 @@ PROPS = {
                 real=["tlx/container/ring_buffer.hpp", "tlx/container/simple_vector.hpp"],
                 stub=["allocator (sim::Alloc as the Allocator argument / class-level operator new[] of the element type): seeded recycling, poisoning, quarantine, canaries, ledger",
                       "element type (lifetime ledger, heap-owning)"]),
+    "C17": dict(harness="c17_lru_splay", concurrent=True, single_task=True,
+                runs=dict(quick=dict(plain=200000, asan=40000),
+                          thorough=dict(plain=4000000, asan=800000)),
+                real=["tlx/container/lru_cache.hpp", "tlx/container/splay_tree.hpp"],
+                stub=["allocator (sim::Alloc as the Alloc/Allocator argument: list nodes, hash nodes and buckets, splay nodes): seeded recycling, poisoning, quarantine, canaries, ledger",
+                      "key type (lifetime ledger, heap-owning) for the splay tree"]),
 }
 
 SIM_NAMES = ["strategy", "param", "pct_k", "spurious_permille", "spurious_budget", "notify_choice",
